@@ -29,8 +29,22 @@ const TarFeatureFlags uint64 = CaFormatWith32BitUIDs |
 func Tar(ctx context.Context, w io.Writer, fs FilesystemReader) error {
 	enc := NewFormatEncoder(w)
 	buf := &fsBufReader{fs, nil}
-	_, err := tar(ctx, enc, buf, nil)
-	return err
+	if _, err := tar(ctx, enc, buf, nil); err != nil {
+		return err
+	}
+
+	// The archive is complete once its root entry has been encoded. Whatever the
+	// source still holds does not belong to the directory it was in when it came
+	// up (tar streams need to be grouped by directory) and would be lost.
+	switch f, err := buf.Next(); err {
+	case io.EOF:
+		return nil
+	case nil:
+		f.Close()
+		return fmt.Errorf("entry '%s' is not in the directory being archived, entries have to be grouped by directory", f.Path)
+	default:
+		return err
+	}
 }
 
 func tar(ctx context.Context, enc FormatEncoder, fs *fsBufReader, f *File) (n int64, err error) {
